@@ -940,7 +940,8 @@ class TaskEventsManager():
             itask.state(TASK_STATUS_WAITING)
             and message != TASK_OUTPUT_EXPIRED
             # Polling in live mode only:
-            and itask.run_mode == RunMode.LIVE
+            # (the run mode is not set for a task reloaded on restart)
+            and itask.run_mode in (None, RunMode.LIVE)
             and (
                 (
                     # task has a submit-retry lined up
